@@ -29,6 +29,7 @@
   scico/loss.py
     Loss.prox (generic, A Identity)   → `lossTranslateProx` ; Loss.__mul__/__truediv__/set_scale → `scaleAfter`
     SquaredL2Loss.prox (A Diagonal/Identity) → `sqL2LossDiagProx`, complex `sqL2LossDiagProxC`
+    SquaredL2Loss.prox (other linear A, CG) → `sqL2LossSysResidual` (residual of the documented system; `matVec`, `matTVec`)
     SquaredL2AbsLoss.prox             → `sqL2AbsProx1`, complex `sqL2AbsProxC1`
     SquaredL2SquaredAbsLoss.prox      → `sqL2SqAbsProx1`, complex `sqL2SqAbsProxC1` (cubic root `r` is an input;
                                         `depCubicP/Q` are the coefficients handed to `_dep_cubic_root`)
@@ -323,6 +324,26 @@ def scaleAfter {α : Type} [Mul α] [Div α] (s0 : α) (ops : List (ScaleOp α))
 def scaleOfOriginal {α : Type} (s0 : α) : List (ScaleOp α) → α
   | .set c :: rest => scaleOfOriginal c rest
   | _ => s0
+
+/-! ### `SquaredL2Loss.prox` with a general linear operator: the system handed to `cg` -/
+
+section CGSystem
+
+variable {α : Type} [Add α] [Sub α] [Mul α] [Zero α] [OfNat α 2] {m n : Nat}
+
+/-- `A(x)` for a dense matrix -/
+def matVec (A : Fin m → Fin n → α) (x : Vec α n) : Vec α m := fun i => Vec.sum (fun j => A i j * x j)
+
+/-- `A.adj(z)` (real data) -/
+def matTVec (A : Fin m → Fin n → α) (z : Vec α m) : Vec α n := fun j => Vec.sum (fun i => A i j * z i)
+
+/-- residual `lhs(x) - rhs` of the system of `SquaredL2Loss.prox` (non-diagonal `A`):
+    `lhs = Identity + lam * hessian`, `hessian(x) = 2*scale*A.adj(W(A(x)))`, `rhs = v + 2*lam*scale*A.adj(W(y))` -/
+def sqL2LossSysResidual (scale : α) (w : Vec α m) (A : Fin m → Fin n → α) (y : Vec α m) (v x : Vec α n) (lam : α) : Vec α n :=
+  let c := 2 * scale * lam
+  fun j => (x j + c * matTVec A (fun i => w i * matVec A x i) j) - (v j + c * matTVec A (fun i => w i * y i) j)
+
+end CGSystem
 
 /-- the value of a public parameter attribute (`radius`, `delta`, `beta`, `scale`, ...) that a `prox` call must use after the
     attribute was assigned `assigns` (in this order) on the SAME object, whatever was computed before: the last assignment
